@@ -6,6 +6,7 @@ from typing import (
     Dict,
     Iterator,
     List,
+    Mapping,
     Optional,
     Sequence,
     Tuple,
@@ -127,7 +128,7 @@ class Executor(ResolutionContext):
             # Default type resolution
             maybe_type = (
                 value.get("__typename__", None)
-                if isinstance(value, dict)
+                if isinstance(value, Mapping)
                 else getattr(value, "__typename__", None)
             )
 
